@@ -111,24 +111,24 @@ type i6dict struct {
 const pk = "github.com/irai/packet."
 
 var i6Dict = map[string]i6dict{
-	"(" + pk + "Frame).IP6":      {"frameIP6 fr p", i6OptBytes, true},
-	"(" + pk + "Frame).Payload":  {"framePayload fr p", i6Bytes, true},
-	"(" + pk + "Frame).Ether":    {"p", i6Bytes, false},
-	"(" + pk + "Ether).Src":      {"etherSrc $r", i6Bytes, true},
-	"(" + pk + "Ether).Dst":      {"etherDst $r", i6Bytes, true},
-	"(" + pk + "IP6).Src":        {"ip6Src $r", i6Bytes, true},
-	"(" + pk + "IP6).Dst":        {"ip6Dst $r", i6Bytes, true},
-	"(" + pk + "ICMP).IsValid":   {"icmpIsValid $r", i6Err, false},
-	"(" + pk + "ICMP).Type":      {"icmpType $r", i6Nat, true},
-	"(" + pk + "ICMPEcho).IsValid": {"echoIsValid $r", i6Err, false},
-	"(" + pk + "ICMP6Redirect).IsValid":             {"redirectIsValid $r", i6Err, false},
-	"(" + pk + "ICMP6RouterSolicitation).IsValid":   {"rsIsValid $r", i6Err, false},
-	"(" + pk + "ICMP6NeighborAdvertisement).IsValid":   {"naIsValid $r", i6Err, false},
-	"(" + pk + "ICMP6NeighborAdvertisement).Override":  {"naOverride $r", i6Bool, true},
-	"(" + pk + "ICMP6NeighborAdvertisement).Solicited": {"naSolicited $r", i6Bool, true},
-	"(" + pk + "ICMP6NeighborAdvertisement).TargetLLA": {"Ndp.naTargetLLA $r", i6OptBytes, true},
-	"(" + pk + "ICMP6NeighborSolicitation).IsValid":       {"nsIsValid $r", i6Err, false},
-	"(" + pk + "ICMP6NeighborSolicitation).TargetAddress": {"nsTarget $r", i6Bytes, true},
+	"(" + pk + "Frame).IP6":                                     {"frameIP6 fr p", i6OptBytes, true},
+	"(" + pk + "Frame).Payload":                                 {"framePayload fr p", i6Bytes, true},
+	"(" + pk + "Frame).Ether":                                   {"p", i6Bytes, false},
+	"(" + pk + "Ether).Src":                                     {"etherSrc $r", i6Bytes, true},
+	"(" + pk + "Ether).Dst":                                     {"etherDst $r", i6Bytes, true},
+	"(" + pk + "IP6).Src":                                       {"ip6Src $r", i6Bytes, true},
+	"(" + pk + "IP6).Dst":                                       {"ip6Dst $r", i6Bytes, true},
+	"(" + pk + "ICMP).IsValid":                                  {"icmpIsValid $r", i6Err, false},
+	"(" + pk + "ICMP).Type":                                     {"icmpType $r", i6Nat, true},
+	"(" + pk + "ICMPEcho).IsValid":                              {"echoIsValid $r", i6Err, false},
+	"(" + pk + "ICMP6Redirect).IsValid":                         {"redirectIsValid $r", i6Err, false},
+	"(" + pk + "ICMP6RouterSolicitation).IsValid":               {"rsIsValid $r", i6Err, false},
+	"(" + pk + "ICMP6NeighborAdvertisement).IsValid":            {"naIsValid $r", i6Err, false},
+	"(" + pk + "ICMP6NeighborAdvertisement).Override":           {"naOverride $r", i6Bool, true},
+	"(" + pk + "ICMP6NeighborAdvertisement).Solicited":          {"naSolicited $r", i6Bool, true},
+	"(" + pk + "ICMP6NeighborAdvertisement).TargetLLA":          {"Ndp.naTargetLLA $r", i6OptBytes, true},
+	"(" + pk + "ICMP6NeighborSolicitation).IsValid":             {"nsIsValid $r", i6Err, false},
+	"(" + pk + "ICMP6NeighborSolicitation).TargetAddress":       {"nsTarget $r", i6Bytes, true},
 	"(" + pk + "ICMP6RouterAdvertisement).IsValid":              {"raIsValid $r", i6Err, false},
 	"(" + pk + "ICMP6RouterAdvertisement).ManagedConfiguration": {"raManaged $r", i6Bool, true},
 	"(" + pk + "ICMP6RouterAdvertisement).OtherConfiguration":   {"raOther $r", i6Bool, true},
@@ -137,20 +137,20 @@ var i6Dict = map[string]i6dict{
 	"(" + pk + "ICMP6RouterAdvertisement).Lifetime":             {"raLifetime $r", i6Nat, true},
 	"(" + pk + "ICMP6RouterAdvertisement).ReachableTime":        {"raReachable $r", i6Nat, true},
 	"(" + pk + "ICMP6RouterAdvertisement).RetransmitTimer":      {"raRetrans $r", i6Nat, true},
-	"(net/netip.Addr).IsUnspecified":        {"Netip.isUnspecified $r", i6Bool, false},
-	"(net/netip.Addr).IsGlobalUnicast":      {"Ndp.isGlobalUnicast16 $r", i6Bool, false},
-	"(net/netip.Addr).Is4":                  {"Netip.is4 $r", i6Bool, false},
-	"(net/netip.Addr).Is6":                  {"Netip.is6 $r", i6Bool, false},
-	"(net/netip.Addr).IsValid":              {"Netip.isValid $r", i6Bool, false},
-	"(net/netip.Addr).IsLinkLocalUnicast":   {"Netip.isLinkLocalUnicast $r", i6Bool, false},
-	"(net/netip.Addr).IsLinkLocalMulticast": {"Netip.isLinkLocalMulticast $r", i6Bool, false},
-	"(net/netip.Addr).IsMulticast":          {"Netip.isMulticast $r", i6Bool, false},
-	"(*" + pk + "AddrList).Len":   {"huntLen g", i6Int, false},
-	"(*" + pk + "AddrList).Index": {"huntIndex g $1", i6Int, false},
-	pk + "CopyMAC":                {"$1", i6Bytes, false},
-	pk + "ICMP6NeighborAdvertisementMarshal": {"naMarshalA $1 $2 $3 $4", i6Bytes, false},
-	pk + "ICMP6NeighborSolicitationMarshal":  {"nsMarshal $1 $2", i6Bytes, false},
-	pk + "Checksum":                          {"checksum $1", i6Nat, false},
+	"(net/netip.Addr).IsUnspecified":                            {"Netip.isUnspecified $r", i6Bool, false},
+	"(net/netip.Addr).IsGlobalUnicast":                          {"Ndp.isGlobalUnicast16 $r", i6Bool, false},
+	"(net/netip.Addr).Is4":                                      {"Netip.is4 $r", i6Bool, false},
+	"(net/netip.Addr).Is6":                                      {"Netip.is6 $r", i6Bool, false},
+	"(net/netip.Addr).IsValid":                                  {"Netip.isValid $r", i6Bool, false},
+	"(net/netip.Addr).IsLinkLocalUnicast":                       {"Netip.isLinkLocalUnicast $r", i6Bool, false},
+	"(net/netip.Addr).IsLinkLocalMulticast":                     {"Netip.isLinkLocalMulticast $r", i6Bool, false},
+	"(net/netip.Addr).IsMulticast":                              {"Netip.isMulticast $r", i6Bool, false},
+	"(*" + pk + "AddrList).Len":                                 {"huntLen g", i6Int, false},
+	"(*" + pk + "AddrList).Index":                               {"huntIndex g $1", i6Int, false},
+	pk + "CopyMAC":                                              {"$1", i6Bytes, false},
+	pk + "ICMP6NeighborAdvertisementMarshal":                    {"naMarshalA $1 $2 $3 $4", i6Bytes, false},
+	pk + "ICMP6NeighborSolicitationMarshal":                     {"nsMarshal $1 $2", i6Bytes, false},
+	pk + "Checksum":                                             {"checksum $1", i6Nat, false},
 }
 
 func i6Lower(s string) string {
